@@ -111,4 +111,12 @@ CHECKS.update({
  },
 })
 
+CHECKS.update({
+ "C15": {
+  "text": "Refresher.tla models per-instance tickers, the refresh mutex and the skip rule (a pass finished less than half an interval ago) with clocks and capped ages, so BoundedRefresh (time since an instance last re-fetched <= 2 intervals) and the liveness property []<> refreshed are checked under weak fairness on the complete graph for all 16 phase pairs of two instances and every outcome history. Walks of that graph (3x the bound and, thorough, a covering tour) are executed on two real validators in one process: time passes by shifting the refresh-finish timestamps through a verif accessor, a tick is one updateCRLs(false); predicates: starvation beyond the bound, a pass that ran without re-fetching a known location (configured url, CDP), a newly published acceptable CRL not in force after a successful pass. Plus the finite table source{url,file} x fetch mode x signature mode x backend for 'configured CRLs are in force when Provision returns'.",
+  "note": "Two instances, I = 4 units, B = 2; the real time.Ticker itself is not exercised (ticks are injected at the model's instants). Trusts TLC (incl. its liveness checking) and the hook that reports skip/run.",
+  "technique": "TLC safety + liveness on a clock-abstracted model (Refresher.tla) + time-injected replay on two real validators",
+ },
+})
+
 PENDING = {}
